@@ -32,6 +32,7 @@ RULE = ('random single assemblies and small cores swept with the real '
         'non-trivial when >= 100 duct cells with a wall temperature '
         'difference > 1e-3 K were checked; distinct by (ducts, option, '
         'region kinds)')
+RULE += (' Later rounds added: multi-duct assemblies with heating in some walls only.')
 DECIDING = ['D1_flux_balance', 'D2_midwall_parabola', 'D3_fourier_mean_flux',
             'D5_ordered_without_heating']
 CASE_TIMEOUT = {'quick': 200, 'thorough': 900}
